@@ -908,6 +908,10 @@ pub fn run(run: &'static Run) {
     let gen = |midx_fixtures: bool, reduced: bool, kmax: usize, lens: std::ops::RangeInclusive<usize>, emit: &mut dyn FnMut(Case)| {
         for len in lens {
             for f in fxs.iter().filter(|f| f.has_midx == midx_fixtures) {
+                // quick: the long histories skip two of the three overlap fixtures
+                if quick && len > 3 && (f.name == "overlap-midx-prefB" || f.name == "overlap-midx-prefC") {
+                    continue;
+                }
                 let kk = kmax.min(f.alphabet.len());
                 let alpha: Vec<u8> = (0..kk as u8).collect();
                 // quick: two of the three overlap fixtures run on the reduced cache matrix only (the lookup under test does not depend on caches)
